@@ -170,7 +170,7 @@ def execute(plan):
     fcount = np.cumsum([1 if e[0] == "fun" else 0 for e in A.events])
     N = int(fcount[-1]) if len(fcount) else 0
     windows = []
-    for ev0, ev1, step in A.ls_log:
+    for ev0, ev1, step, _dn in A.ls_log:
         f0 = int(fcount[ev0 - 1]) if ev0 >= 1 else 0
         f1 = int(fcount[ev1 - 1]) if ev1 >= 1 else 0
         windows.append((f0, f1, step))
